@@ -68,6 +68,10 @@ def bad_class(form, o1, o2, u, l1, l2):
     """class of inputs with a KNOWN round-trip defect ('' = none); decided from the selectors only"""
     if form in ("nestL", "nestR", "flat", "goalL") and (o1 in CONTROL or o2 in CONTROL):
         return "control-construct-inside-argument"
+    if form == "nestLR" and (o1 in CONTROL or o2 in CONTROL or u in CONTROL):
+        return "control-construct-inside-argument"
+    if form == "nestLR" and o2 == "^" and o1 in ("*", "/", "//", "rem", "mod", "<<", ">>"):
+        return "power-as-left-operand-of-multiplicative-operator"
     if form in ("un-of-bin", "bin", "bin-of-unL", "bin-of-unR") and o1 in CONTROL:
         return "control-construct-inside-argument"
     if form == "bin" and o1 in ("<", ":") and l2 in ("-1", "- 1"):
@@ -106,6 +110,9 @@ def text_of(form, o1, o2, u, u2, l1, l2):
         return "p :- X = (a %s b %s c)." % (o1, o2)
     if form == "goalL":
         return "p :- (a %s b) %s c." % (o2, o1)
+    if form == "nestLR":
+        # both operands are operator terms; the third operator travels in the u slot
+        return "p :- X = ((a %s b) %s (c %s d))." % (o2, o1, u)
     if form == "un-of-bin":
         return "p :- X = (%s (a %s b))." % (u, o1)
     if form == "bin-of-unL":
@@ -231,6 +238,13 @@ def harnesses(tier, seed):
                 hs.append(_h("h_rt_%s_%d_%s" % (form, o, tag), ["o2"], [nb],
                              'return rt("%s", %s, OP2(o2), "", "", "", "", %s)' % (form, lit(BIN[o]), m),
                              {"part": "rt", "form": form, "op": BIN[o], "mode": mode}))
+        # both operands compound: one condition per outer operator, the two inner operators symbolic (1156 paths)
+        if mode == "clean":
+            ops = range(nb) if tier == "thorough" else sorted(set([BIN.index("^"), BIN.index(":"), BIN.index(","), BIN.index("-")] + rng.sample(range(nb), 5)))
+            for o in ops:
+                hs.append(_h("h_rt_nestLR_%d_%s" % (o, tag), ["o2", "o3"], [nb, nb],
+                             'return rt("nestLR", %s, OP2(o2), OP2(o3), "", "", "", %s)' % (lit(BIN[o]), m),
+                             {"part": "rt", "form": "nestLR", "op": BIN[o], "mode": mode}))
         for form in ("un-of-bin", "bin-of-unL", "bin-of-unR"):
             hs.append(_h("h_rt_%s_%s" % (form.replace("-", ""), tag), ["u", "o1"], [nu, nb],
                          'return rt("%s", OP2(o1), "", OP1(u), "", "", "", %s)' % (form, m), {"part": "rt", "form": form, "mode": mode}))
